@@ -39,7 +39,7 @@ def _parse_opts(rest):
     for p in parts[1:]:
         m = re.match(r'subst\s+"(.*)"\s*=>\s*"(.*)"(?:\s+(R\d))?$', p)
         if m:
-            substs.append((m.group(1).replace('\\"', '"'), m.group(2).replace('\\"', '"'), m.group(3) or 'R6'))
+            substs.append((m.group(1).replace('\\"', '"').replace('\\n', '\n'), m.group(2).replace('\\"', '"').replace('\\n', '\n'), m.group(3) or 'R6'))
             continue
         if '=' in p:
             k, v = p.split('=', 1)
@@ -525,6 +525,8 @@ class Gen:
                     cty = 'Option<_>'
                 elif path in ('Ok', 'Err'):
                     cty = 'Result<_, _>'
+                elif path.startswith('Cow::'):
+                    cty = "Cow<'_, _>"
                 elif '::' in path:
                     cty = path.rsplit('::', 1)[0]
                 else:
@@ -534,6 +536,32 @@ class Gen:
                 rep = ('|x_eta| -> (r_eta: _) requires call_requires(%s, (x_eta,)) ensures call_ensures(%s, (x_eta,), r_eta) { %s(x_eta) }'
                        % (path, path, path))
             edits.append((a, b, rep, 'R1'))
+        # CFG: `#[cfg(..)]` attributes inside the body are resolved for the configuration the unit assumes
+        # (features listed in the directive): an active attribute is dropped, an inactive one takes its
+        # field / statement with it.
+        feats = tuple(x for x in opts.get('features', '').split(',') if x)
+        km = L.mask(btxt, keep_strings=True)
+        for m in re.finditer(r'#\s*\[\s*cfg\s*\(', km):
+            ob = km.find('(', m.start())
+            cb = L.match_close(km, ob)
+            close_attr = km.find(']', cb)
+            if L.cfg_eval(btxt[ob + 1:cb], feats):
+                edits.append((m.start(), close_attr + 1, '', 'CFG'))
+            else:
+                k, depth = close_attr + 1, 0
+                while k < len(btxt):
+                    ch = bmask[k]
+                    if ch in '([{':
+                        depth += 1
+                    elif ch in ')]}':
+                        if depth == 0:
+                            break
+                        depth -= 1
+                    elif ch in ',;' and depth == 0:
+                        k += 1
+                        break
+                    k += 1
+                edits.append((m.start(), k, '', 'CFG'))
         # R1b: `|_|` closure parameters (Verus only accepts variable patterns there) -> `|_unused|`
         for m in re.finditer(r'\|\s*_\s*\|', bmask):
             if not any(e[0] <= m.start() < e[1] for e in edits):
